@@ -29,7 +29,7 @@ import re
 import sys
 
 TYPES = {"TYPE_INT": "TInt", "TYPE_LONG": "TLong", "TYPE_DOUBLE": "TDouble", "TYPE_FLOAT": "TFloat",
-         "TYPE_VOID": "TVoid", "TYPE_UNKNOWN": "TUnknown"}
+         "TYPE_VOID": "TVoid", "TYPE_POINTER": "TPointer", "TYPE_UNKNOWN": "TUnknown"}
 CTYPES = {"int": "TInt", "long": "TLong", "int64_t": "TLong", "long long": "TLong", "double": "TDouble",
           "float": "TFloat", "void": "TVoid"}
 
@@ -314,7 +314,7 @@ def to_coq(tab):
 
 
 def sig_name(ret, params):
-    c = {"TInt": "i", "TLong": "l", "TDouble": "d", "TFloat": "f", "TVoid": "v", "TOther": "o", "TUnknown": "u"}
+    c = {"TInt": "i", "TLong": "l", "TDouble": "d", "TFloat": "f", "TVoid": "v", "TPointer": "p", "TOther": "o", "TUnknown": "u"}
     return c[ret] + "(" + "".join(c[p] for p in params) + ")"
 
 
